@@ -122,11 +122,14 @@ func (f *Metrics) GlyphList() []string {
 }
 
 func (f *Metrics) FontBBoxPDF() (bbox rect.Rect) {
-	for _, g := range f.Glyphs {
-		if g == nil {
-			continue
+	// visit the glyphs in a fixed order: for degenerate boxes (NaN,
+	// inverted) the union depends on the order
+	names := maps.Keys(f.Glyphs)
+	sort.Strings(names)
+	for _, name := range names {
+		if g := f.Glyphs[name]; g != nil {
+			bbox.Extend(g.BBox)
 		}
-		bbox.Extend(g.BBox)
 	}
 	return bbox
 }
